@@ -118,7 +118,7 @@ func genData(g *yg.G, depth int, idx *int) *A {
 		l := &A{Kw: "list", Val: sp(name), Kids: []*A{{Kw: "key", Val: sp("k")}, key}}
 		if g.Pick(2, "twokeys") == 0 {
 			// several keys, separated and surrounded by blanks and tabs (no line breaks: multi-line double-quoted strings
-		// are C08's subject): the argument is reported as written
+			// are C08's subject): the argument is reported as written
 			ks := []string{"k k2", "k  k2", "k\tk2", " k k2", "k k2 ", "k \t k2", "k2 k"}
 			l.Kids[0].Val = sp(ks[g.Pick(len(ks), "keyarg")])
 			l.Kids = append(l.Kids, &A{Kw: "leaf", Val: sp("k2"), Kids: []*A{{Kw: "type", Val: sp("string")}}})
